@@ -13,7 +13,7 @@ Import ListNotations.
 From ZI Require Import Spec.C3 Proofs.Ro Model.Ro Model.Adapter Model.Lookup Model.Super Spec.Super Proofs.Super.
 
 (* the modelled MRO is the textbook C3 linearisation of the class graph *)
-Theorem C19_mro_is_c3 : forall E T, env_ok E = true ->
+Theorem C19_mro_is_c3 : forall E, env_ok E = true -> forall T,
   mro_of E T = c3_lin (bases (e_cg E)) (S (length (e_cg E))) T.
 Proof. exact mro_is_c3. Qed.
 Print Assumptions C19_mro_is_c3.
@@ -110,7 +110,7 @@ Theorem C19_super_multi_adaptation :
   | None => RDefault
   end /\
   forall o ob, o_super_of o = Some ob -> unwrap o = ob.
-Proof. intros. split; [apply queryMultiAdapter_lemma; assumption|exact unwrap_super]. Qed.
+Proof. exact multi_adaptation_lemma. Qed.
 Print Assumptions C19_super_multi_adaptation.
 
 (* the model's registry after any history: adapting super(C, ob) through queryAdapter,
@@ -141,7 +141,7 @@ Print Assumptions C19_super_adapter_selected.
 Theorem C19_flat_semantics : forall E d c i, env_ok E = true ->
   (In i (flat E d c) <->
    i = iroot \/ exists c' q, Contributes E d c c' /\ In q (declared d c') /\ Reach (bases (e_ig E)) q i).
-Proof. intros E d c i OK. apply flat_semantics_lemma. exact OK. Qed.
+Proof. exact flat_semantics_thm. Qed.
 Print Assumptions C19_flat_semantics.
 
 (* Implements.changed: a change of implementedBy(c) deletes the _super_cache of exactly the
@@ -150,9 +150,7 @@ Theorem C19_notified_exactly_dependents : forall E st c T, env_ok E = true ->
   (In T (notified E (st_decl st) (cfuel E) c) <-> Hears E (st_decl st) T c) /\
   (Hears E (st_decl st) T c -> nget (st_cache (notify E st c)) T = None) /\
   (~ Hears E (st_decl st) T c -> nget (st_cache (notify E st c)) T = nget (st_cache st) T).
-Proof.
-  intros E st c T OK. split; [apply notified_lemma; exact OK|apply notify_cache_lemma; exact OK].
-Qed.
+Proof. exact notified_thm. Qed.
 Print Assumptions C19_notified_exactly_dependents.
 
 (* ---- non-vacuity: a diamond with an undeclared mixin below an *only* class.
